@@ -66,6 +66,14 @@ func c12sqCase(dir string, n int, ops []string) string {
 		conn = nil
 	}
 	defer unlock()
+	// rows of OTHER namespaces with the same keys, and one whose namespace+key concatenates like ("ns","a"): no operation
+	// on namespace "ns" may touch them
+	decoys := [][2]string{{"ns2", "a"}, {"ns2", "b"}, {"n", "sa"}, {"nsa", ""}}
+	for _, d := range decoys {
+		if err := st.Put(ctx, d[0], d[1], []byte("decoy-"+d[0])); err != nil {
+			return "decoy-put-failed"
+		}
+	}
 	out := []string{}
 	res := func(err error) {
 		if err != nil {
@@ -128,7 +136,23 @@ func c12sqCase(dir string, n int, ops []string) string {
 	if len(out) > 0 {
 		r = strings.Join(out, ",")
 	}
-	return fmt.Sprintf("res=%s store=%s count=%d", r, s, cnt)
+	lost := ""
+	for _, d := range decoys {
+		n, ok := 0, false
+		st.Load(ctx, d[0], func(k string, v []byte) error {
+			n++
+			ok = ok || (k == d[1] && string(v) == "decoy-"+d[0])
+			return nil
+		})
+		want := 1
+		if d[0] == "ns2" {
+			want = 2
+		}
+		if c, _ := st.Count(ctx, d[0]); !ok || n != want || c != want {
+			lost = " DECOY-LOST:" + d[0] + "/" + d[1]
+		}
+	}
+	return fmt.Sprintf("res=%s store=%s count=%d", r, s, cnt) + lost
 }
 
 func TestVerifC12SQ(t *testing.T) {
